@@ -180,6 +180,18 @@ D = {
  'C06-slot-fastpath-flag-race': ('C06', 'the raw Slot gains a has-data flag: store sets it after send, load clears it when recv() is empty', 'a delivery between the empty recv() and the clear: the record sits in the buffer, every receive reports empty until the next signal'),
  'C08-send-retries-slot-in-transit-r5': ('C08', 'send retries dequeue(empty) unless the full queue holds all five (round 5, independent rediscovery)', 'a send in a handler that interrupted a recv holding the fifth slot on the same thread: spins forever'),
  'C08-counted-infos-expect': ('C08', 'the raw Slot counts waiting infos (store: send then fetch_add; load: claim then recv().expect(..))', 'six or more undrained deliveries of one signal: the dropped one is counted, the sixth load panics in Pending::next'),
+ 'C03-rehook-stolen-signal-chains-into-itself': ('C03', 'a second registration re-installs the library handler when the disposition is no longer its own and stores what it found as prev (round 6)', 'the application installs its own chaining handler between two registrations of one signal: handler -> app handler -> handler recursion until the stack is gone'),
+ 'C03-action-upgrades-weak-instance': ('C03', 'the iterator action captures a Weak of PendingSignals and upgrades it per delivery (round 6)', 'the instance dropped with a Handle clone left, a delivery overlapping the drop of that last Handle: the channel box is freed inside the handler'),
+ 'C15-slot-new-merges-prev-flags-r6': ('C15', 'Slot::new merges sa_mask and sa_flags of the previous disposition into the library handler\'s (round 6, independent rediscovery)', 'a one-shot (SA_RESETHAND) handler before the take-over: the second SIGTERM kills by default action instead of _exit(status)'),
+ 'C15-vec-swap-remove-r6': ('C15', 'actions in a Vec, unregister with swap_remove (round 6, independent rediscovery)', 'an older action of the signal removed (an iterator dropped): the arming flag moves in front of the shutdown, exit on the first signal'),
+ 'C14-forbidden-check-in-vacant-branch-r6': ('C14', 'the FORBIDDEN assertion moves into the Entry::Vacant branch (round 6, independent rediscovery)', 'an unchecked registration of ILL/FPE/SEGV first, then any checked entry point for that signal'),
+ 'C14-drop-skips-while-panicking-r6': ('C14', 'DeliveryState::drop returns at once while the thread is panicking (round 6, independent rediscovery)', 'Signals::new(&[SIGUSR1, SIGKILL]): the refusal unwinds through the half-built instance, the SIGUSR1 action stays registered'),
+ 'C09-empty-fresh-batch-pending-r6': ('C09', 'poll_signal answers Pending at once when the fresh batch is empty (round 6, independent rediscovery)', 'a stale wake-up byte and an async adapter: parked with no waker armed'),
+ 'C09-iterator-starts-exhausted-r6': ('C09', 'SignalIterator::new starts with an exhausted batch (round 6, independent rediscovery)', 'two signals delivered, one taken from forever(), the loop left and entered again: blocks with the second unreported'),
+ 'C12-add-signal-outside-lock-r6': ('C12', 'Handle::add_signal registers outside the per-instance lock (round 6, independent rediscovery)', 'two overlapping add_signal of one signal on one instance, then the drop'),
+ 'C12-barrier-gives-up-r6': ('C12', 'write_barrier gives up after 2^16 spins and store() leaks the old table (round 6, independent rediscovery)', 'the last owner dropped while a delivery stays in a slow action on another thread: the pipe write end never closes'),
+ 'C10-add-signal-two-sections-r6': ('C10', 'Handle::add_signal: check and store of the id in two critical sections (round 6, independent rediscovery)', 'two threads add one signal to one instance: every delivery yields two records'),
+ 'C10-signalonly-load-store-r6': ('C10', 'SignalOnly::load as load + store(false) (round 6, independent rediscovery)', 'two batches of one instance walked by two threads: one delivery yielded twice'),
 }
 for name, (prop, change, needs) in D.items():
     d = os.path.join(ROOT, 'seeded', name)
